@@ -128,21 +128,57 @@ def _bases(ctx, n_random, nprng):
 names_zoo = set(x.name for x in X.zoo())
 
 
+TIE_L = [[0.3975170593445953, 0.7058355579898387, -0.35359065684375535],
+         [0.6371540158665322, -0.10753572888364597, -0.6030927184758689],
+         [-0.14973141703646584, 0.21484440914716474, -0.8441992552771281]]      # columns: a rotated FCC primitive cell
+
+
+def tie_stream(ctx, nprng, n):
+    """lattices on which a_i.a_j/|a_i|^2 is exactly +-1/2 (FCC primitive, hexagonal, 60-degree rhombohedral), in
+    random orientations: minlattice's rounding sits on a tie and float noise decides"""
+    F = Fr
+    fcc = X.zoo()[1]
+    hexg = [[F(1), -F(1, 2), F(0)], [-F(1, 2), F(1), F(0)], [F(0), F(0), F(64, 25)]]
+    rh = [[F(1), F(1, 2), F(1, 2)], [F(1, 2), F(1), F(1, 2)], [F(1, 2), F(1, 2), F(1)]]
+    hex2 = [[F(1), -F(1, 2)], [-F(1, 2), F(1)]]
+    protos = [(fcc.g, 'FCC'), (hexg, 'hex'), (rh, 'rhomb60'), (hex2, 'hex2')]
+    for k in range(n):
+        if k == 0:
+            xc = X.XC(X.mmul([[F(25, 16) * x for x in r] for r in [[1, 0, 0], [0, 1, 0], [0, 0, 1]]], fcc.g),
+                      [[(F(12, 13), F(2, 11), F(8, 13))]], L=np.array(TIE_L).T, name='FCC-rotated(tie)', cls='cubicF')
+        else:
+            g, nm = protos[k % len(protos)]
+            d = len(g)
+            xc = X.XC(g, [[tuple(F(0) for _ in range(d))]], name=nm + '-rotated(tie)', cls=nm)
+            xc.L = X.rand_rotation(nprng, d) @ xc.L
+        ctx.count('tie-stream')
+        ctx.case(('tie', xc.name, k), nontrivial=True)
+        try:
+            c = X.build(xc, NOSYM=(k != 0 and xc.d == 3))
+        except Exception as e:
+            ctx.violation('ctor-raises:%s:tie-lattice' % type(e).__name__,
+                          'Crystal(%s in a general orientation) raises %r' % (xc.name.split('(')[0], e), _replay(xc))
+            continue
+        if np.linalg.det(c.lattice) <= 0 or abs(abs(np.linalg.det(c.lattice)) - abs(np.linalg.det(xc.L))) > 1e-9:
+            ctx.violation('tie-lattice:volume-or-handedness', 'minlattice changed the cell volume or left it left-handed', _replay(xc))
+
+
 def run(ctx):
     rng = ctx.rng
     nprng = np.random.default_rng(rng.getrandbits(32))
+    tie_stream(ctx, nprng, 160 if ctx.quick else 1500)
     nat = X.native_driver(DRV, MODELS) is not None
     if not nat: ctx.note('native driver could not be built: interpreter fallback (few cases)')
     t_run = time.time()
     budget = 110.0 if ctx.quick else 1200.0
-    n_random = (20 if ctx.quick else 350) if nat else 2
+    n_random = (20 if ctx.quick else 1200) if nat else 2
     lines, pending = [], []
     reps = 2 if ctx.quick else 3
     for xc in _bases(ctx, n_random, nprng):
         try:
             c0 = X.build(xc)
         except Exception as e:
-            ctx.violation('ctor-raises:%s:primitive' % type(e).__name__, 'Crystal construction of the base crystal raises %r' % (e,), _replay(xc))
+            ctx.violation('ctor-raises:%s:base' % type(e).__name__, 'Crystal construction of the base crystal raises %r' % (e,), _replay(xc))
             continue
         # what the primitive description is, independently of the code under test, when the generator knows it
         zoo_known = xc.name in names_zoo
